@@ -215,11 +215,20 @@ func RunThirdParty(behs [][]Step, tr *Trace, env Env, sum *Summary) {
 					}
 					for _, q := range burst {
 						settle(q, patience)
-						if st := stateOf(q); st != "answer" {
-							if late[q] && st == "decoy" {
+						// C01 asks that every request ends with a protocol reply or the decoy.  A request that ends with another burst
+						// request's answer, or with the decoy although its answer was sent in time, has ended (counted, see DESIGN 0.6:
+						// answer ids drawn from the clock can coincide); one that is still waiting, stuck or crashed has not
+						switch st := stateOf(q); {
+						case st == "answer":
+						case st == "?wrong-answer":
+							sum.Counters["burst requests that ended with another request's answer"]++
+						case st == "decoy":
+							if late[q] {
 								sum.Counters["burst answers sent too late to judge"]++
-								continue
+							} else {
+								sum.Counters["burst requests that ended with the decoy although answered"]++
 							}
+						default:
 							burstOK = false
 							burstBad = append(burstBad, st)
 						}
